@@ -85,8 +85,8 @@ def check(run, replay=None):
     cov = run.coverage
     cov["boundary_statements"] = len(bnd)
     nontriv = set()
-    for order_name, flag in (("row-major", ""),):
-        exes = build_units(run, units, "double", "-O0 -g0 -w -fsanitize=address,undefined -fno-sanitize-recover=all " + flag, "c04")
+    for order_name, flag in (("row-major", ""), ("bounds-checked", "-DADEPT_BOUNDS_CHECKING")):
+        exes = build_units(run, units, "double", "-O0 -g0 -w -fsanitize=address,undefined -fno-sanitize-recover=all " + flag, "c04" + order_name[:1])
         if not any(exes):
             return
         lay = layout_of([e for e in exes if e][0])
